@@ -24,4 +24,66 @@ SPEC = docsweep.Spec(
     n_quick=120, n_thorough=4000,
     extra_corr=docsweep.utilities_corr("links"),
 )
-run, search, replay = make(SPEC)
+_run, search, replay = make(SPEC)
+
+
+def regex_sweep(ctx):
+    """Utilities.link_match / heading_match (the two regular expressions of utilities.py,
+    re-implemented in Gallina) against the re module on generated strings, and the \\d table"""
+    import random
+    import re
+    import common
+    link_pattern = re.compile('<a href="(?P<href>[^"]+)">(?P<text>[^<]+)</a>')
+    heading_pattern = re.compile(r"Heading\d")
+    pieces = ['<a href="', '">', '</a>', '"', '<', '>', 'a', 'b c', ' ', '\n', 'http://x/?a=1&b=2', '#', '</a', 'a>', '<a href=',
+              'Heading', 'heading', '1', '9', '0', '\u0663', '\uff15', '\U0001d7d8', 'x', '', '\u00b2', 'H']
+    rng = random.Random(ctx["seed"])
+    n = 1500 if ctx["tier"] == "quick" else 40000
+    bad = []
+    hits = {"link": 0, "heading": 0}
+    model = common.Model()
+    try:
+        for i in range(n):
+            k = rng.choice([1, 2, 3, 4, 5, 6, 8])
+            if rng.random() < 0.4:
+                s = '<a href="' + "".join(rng.choice(pieces) for _ in range(rng.randint(0, 2))) + '">' + \
+                    "".join(rng.choice(pieces) for _ in range(rng.randint(0, 3))) + rng.choice(['</a>', '</a>tail', '', '</a'])
+            elif rng.random() < 0.3:
+                s = "Heading" + "".join(rng.choice(pieces) for _ in range(rng.randint(0, 2)))
+            else:
+                s = "".join(rng.choice(pieces) for _ in range(k))
+            m = link_pattern.match(s)
+            exp_link = [[common.S(m.group("href")), common.S(m.group("text"))]] if m else []
+            exp_head = 1 if heading_pattern.match(s) else 0
+            hits["link"] += bool(m)
+            hits["heading"] += exp_head
+            got = model.run([11, common.S(s)])
+            if got != [exp_link, exp_head]:
+                bad.append({"correspondence": "Utilities.link_match / heading_match <-> re.match in utilities.py",
+                            "input": s, "impl": repr([exp_link, exp_head])[:200], "model": repr(got)[:200]})
+                break
+    finally:
+        model.close()
+    # the Nd table of Utilities.v against the re module over all code points
+    src = open(common.VERIF / "coq/model/Utilities.v").read()
+    tab = src[src.index("Definition nd_ranges"):src.index("Definition is_unicode_digit")]
+    ranges = [(int(a), int(b)) for a, b in re.findall(r"\((\d+), (\d+)\)", tab)]
+    digit = re.compile(r"\d")
+    in_tab = set()
+    for a, b in ranges:
+        in_tab.update(range(a, b + 1))
+    for c in range(0x110000):
+        if (digit.match(chr(c)) is not None) != (c in in_tab):
+            bad.append({"correspondence": "Utilities.nd_ranges <-> re \\d", "input": hex(c)})
+            break
+    return bad, {"regex_strings": n, "regex_link_matches": hits["link"], "regex_heading_matches": hits["heading"],
+                 "nd_ranges": len(ranges)}
+
+
+def run(ctx):
+    res = _run(ctx)
+    if ctx["model_ok"]:
+        bad, info = regex_sweep(ctx)
+        res.setdefault("corr_broken", []).extend(bad)
+        res.update(info)
+    return res
